@@ -571,14 +571,37 @@ fn batch_case(c: &BatchCase) -> CaseResult {
     let g = G1Projective::generator();
     let tau_g2 = (midnight_curves::G2Projective::generator() * tau).to_affine();
     let fe = |e: i8| if e >= 0 { F::from(e as u64) } else { -F::from((-(e as i64)) as u64) };
+    // fixed bases (as the commitments of verifying keys are): a common one and some that only
+    // one or two of the accumulators refer to, so that the members' key sets differ
+    let pool: Vec<String> = ["-G", "vkA_fixed_com_0", "vkA_perm_com_0", "vkB_fixed_com_0", "vkB_fixed_com_1", "vkC_perm_com_0"].iter().map(|s| s.to_string()).collect();
+    let betas: Vec<F> = pool.iter().map(|_| F::random(&mut rng)).collect();
+    let fixed_bases: std::collections::BTreeMap<String, C> = pool.iter().zip(&betas).map(|(n, b)| (n.clone(), g * b)).collect();
+    let with_fixed = c.seed % 3 != 0;
     let mut accs = vec![];
-    for (e, t) in c.errs.iter().zip(&c.terms) {
+    let mut key_sets = std::collections::BTreeSet::new();
+    for (ai, (e, t)) in c.errs.iter().zip(&c.terms).enumerate() {
+        // which fixed bases this accumulator refers to
+        let mask: u64 = if with_fixed { 1 | (c.seed >> (8 + 6 * ai)) & 0x3f } else { 0 };
+        key_sets.insert(mask);
+        let mut lhs_fixed = std::collections::BTreeMap::new();
+        let mut rhs_fixed = std::collections::BTreeMap::new();
+        let mut lhs_fixed_val = F::ZERO;
+        let mut rhs_fixed_val = F::ZERO;
+        for (l, name) in pool.iter().enumerate() {
+            if mask >> l & 1 == 1 {
+                let (a, b) = (F::random(&mut rng), F::random(&mut rng));
+                lhs_fixed.insert(name.clone(), a);
+                rhs_fixed.insert(name.clone(), b);
+                lhs_fixed_val += a * betas[l];
+                rhs_fixed_val += b * betas[l];
+            }
+        }
         // lhs = sum s_j B_j ; rhs = tau * lhs + e * D * G, split over t terms
         let t = *t as usize;
         let bs: Vec<F> = (0..t).map(|_| F::random(&mut rng)).collect();
         let ss: Vec<F> = (0..t).map(|_| F::random(&mut rng)).collect();
         let lhs_bases: Vec<C> = bs.iter().map(|b| g * b).collect();
-        let total: F = bs.iter().zip(&ss).map(|(b, s)| *b * s).sum::<F>() * tau + fe(*e) * d;
+        let total: F = (bs.iter().zip(&ss).map(|(b, s)| *b * s).sum::<F>() + lhs_fixed_val) * tau + fe(*e) * d - rhs_fixed_val;
         let mut rs: Vec<F> = (0..t - 1).map(|_| F::random(&mut rng)).collect();
         let mut rb: Vec<F> = (0..t - 1).map(|_| F::random(&mut rng)).collect();
         let partial: F = rs.iter().zip(&rb).map(|(s, b)| *s * b).sum();
@@ -586,8 +609,8 @@ fn batch_case(c: &BatchCase) -> CaseResult {
         rs.push(last_s);
         rb.push((total - partial) * last_s.invert().unwrap());
         let rhs_bases: Vec<C> = rb.iter().map(|b| g * b).collect();
-        let mut acc = Accumulator::<S>::new(Msm::from_terms(&lhs_bases, &ss), Msm::from_terms(&rhs_bases, &rs));
-        let ok = acc.check(&tau_g2, &Default::default());
+        let mut acc = Accumulator::<S>::new(Msm::new(&lhs_bases, &ss, &lhs_fixed), Msm::new(&rhs_bases, &rs, &rhs_fixed));
+        let ok = acc.check(&tau_g2, &fixed_bases);
         ensure!(ok == (*e == 0), "harness:synthetic-accumulator-not-as-built", "error {e}: check = {ok}");
         if c.collapse {
             acc.collapse();
@@ -598,8 +621,8 @@ fn batch_case(c: &BatchCase) -> CaseResult {
     let batch = vpcore::catch(|| Accumulator::<S>::accumulate(&accs)).map_err(|p| Failure::new("accumulate:panic", p))?;
     let mut batch_collapsed = batch.clone();
     batch_collapsed.collapse();
-    let got = batch.check(&tau_g2, &Default::default());
-    ensure!(batch_collapsed.check(&tau_g2, &Default::default()) == got, "accumulate:collapse-changes-check", "errs {:?}", c.errs);
+    let got = batch.check(&tau_g2, &fixed_bases);
+    ensure!(batch_collapsed.check(&tau_g2, &fixed_bases) == got, "accumulate:collapse-changes-check", "errs {:?}", c.errs);
     let n_bad = c.errs.iter().filter(|e| **e != 0).count();
     if all_valid {
         ensure!(got, "accumulate:valid-batch-rejected", "n = {}", c.errs.len());
@@ -609,7 +632,8 @@ fn batch_case(c: &BatchCase) -> CaseResult {
     }
     Ok(Verdict::of(c.errs.len() >= 2, if all_valid { "all-valid".to_string() } else { format!("invalid:{}", n_bad.min(3)) })
         .with(format!("n={}", c.errs.len()))
-        .with(if c.errs.iter().map(|e| *e as i32).sum::<i32>() == 0 && !all_valid { "errors-sum-to-zero" } else { "errors-other" }))
+        .with(if c.errs.iter().map(|e| *e as i32).sum::<i32>() == 0 && !all_valid { "errors-sum-to-zero" } else { "errors-other" })
+        .with(if !with_fixed { "no-fixed-bases" } else if key_sets.len() >= 2 { "fixed-base-key-sets-differ" } else { "fixed-base-key-sets-equal" }))
 }
 
 // ---------------------------------------------------------------------------
@@ -886,7 +910,7 @@ fn main() {
     vpcore::main("C20", "fault_enumeration", (3600, 21600), |p| {
         p.sub(
             "accumulate.batch",
-            "Accumulator::accumulate over 1..5 synthetic accumulators with a known trapdoor (1..3 terms a side, optionally collapsed) whose errors are small integer multiples of one secret: the batch passes check iff every accumulator does (single errors, cancelling / proportional pairs in every ordered pair of slots, arbitrary small vectors); non-trivial = two or more accumulators",
+            "Accumulator::accumulate over 1..5 synthetic accumulators with a known trapdoor (1..3 variable terms a side, fixed-base scalars over key sets that differ between members in two thirds of the cases, optionally collapsed) whose errors are small integer multiples of one secret: the batch passes check iff every accumulator does (single errors, cancelling / proportional pairs in every ordered pair of slots, arbitrary small vectors); non-trivial = two or more accumulators",
             p.tier.pick(1500, 40000),
             8,
             batch_strategy,
